@@ -292,6 +292,9 @@ impl Property for C18 {
         let mut r = CaseReport::default();
         let Some((prog, rendered, _)) = gen_program(tape) else {
             r.label("not-accepted");
+            let (f, src) = crate::props::c17::rejected_failure("c18");
+            r.fail(f);
+            r.rendered = src.map(|s| json!({"sources": s.to_json()}));
             return r;
         };
         let sources = to_sources(&rendered);
